@@ -1,7 +1,7 @@
 (* Properties/C11.v — obligations for C11 (unsafe code never performs an invalid access).
    Only statements, `exact`, and Print Assumptions live here. *)
 From Coq Require Import ZArith List Bool.
-From V Require Import F64 StrainsVec StrainsVecProofs Tables Owner OwnerProofs.
+From V Require Import F64 StrainsVec StrainsVecProofs Tables Owner OwnerProofs EffectsProofs.
 Import ListNotations.
 Open Scope Z_scope.
 
@@ -93,3 +93,10 @@ Print Assumptions C11_lifetime_facts_now.
 Theorem C11_lifetime_facts_present : (16 <= length lifetime_facts)%nat.
 Proof. exact tables_lifetime_facts_present. Qed.
 Print Assumptions C11_lifetime_facts_present.
+
+(* every `unsafe` token of the current source lies in one of the files modelled above, with at
+   most the number of occurrences that were examined (inventory regenerated on every run): new
+   unsafe code anywhere else breaks this theorem *)
+Theorem C11_unsafe_sites_covered : unsafe_covered unsafe_sites = true.
+Proof. exact tables_unsafe_covered. Qed.
+Print Assumptions C11_unsafe_sites_covered.
